@@ -17,7 +17,8 @@ def run(tier):
                   env={"H_LEN": "2" if q else "3", "H_LATE": str(late)}) for late in range(3)] + [
              # message histories stay inside the protocol language: the forecast unit of C19 on the receive spec's shape
              Cond("h_forecast.py", "forecasts_match", to, path_timeout=to / 2, env={"H_SPEC": "pingpong", "H_DEPTH": "3" if q else "4"})]
-    run.run_conditions(conds, conformance_harnesses=["h_receive.py"])
+    conds.append(Cond("h_iohist.py", "history_is_kept", to, twin="reach", path_timeout=to / 2, env={"H_CHOICES": "6"}))
+    run.run_conditions(conds, conformance_harnesses=["h_receive.py", "h_iohist.py"])
     # send gate: IoEvaluator yields only when every hard / repetition-bound constraint is satisfied (E2)
     try:
         for (h, r) in ([(1, 0), (1, 1)] if q else [(1, 0), (0, 1), (1, 1), (2, 0), (2, 1)]):
@@ -37,9 +38,10 @@ def run(tier):
         run.errors.append(f"Untranslatable: {e}")
     run.extra["smt_queries_nontrivial"] = run.extra.get("smt_queries", 0)
     run.encoded = ["parse_next_remote_packet/_find_next_fragment", "FandangoIO.add_receive/get_received_msgs/clear_by_party/get_full_fragments",
-                   "IterativeParser.new_parse(hookin_parent)/consume/can_continue", "PacketForecaster.predict", "IoEvaluator.evaluate_individual (E2)"]
+                   "IterativeParser.new_parse(hookin_parent)/consume/can_continue", "IoPopulationManager._generate_population_entry", "IoEvaluator.evaluate_individual + fix_individual on the extended history", "PacketForecaster.predict", "IoEvaluator.evaluate_individual (E2)"]
     run.extra["source_sha256_16"] = source_fingerprint(FILES)
-    run.bounds = {"receive path": "remote party B sends <= 2 (3) characters over {1,7,O,K,?}; one fragment of a third party interleaved at a symbolic position or absent; "
+    run.bounds = {"history integrity": "received <count> of 1-2 digits, every draw of generating and repairing the next fuzzer message symbolic (<= 6 draws)",
+                  "receive path": "remote party B sends <= 2 (3) characters over {1,7,O,K,?}; one fragment of a third party interleaved at a symbolic position or absent; "
                   "0-2 of the fragments arrive only while the parser is waiting (delivered by the time.sleep stub); time.time advances 0.3 s per call",
                   "send gate": "h + r <= 2 (3) stub constraints, totals <= 1000 via the quotient lemma"}
     run.outside = ["the threaded socket loop of _generate_io, real transports and thread interleavings inside add_receive (a lock-protected append)",
